@@ -10,10 +10,15 @@
        abandons, precedes and extends only markers that are live / completed (none of the
        marker unreachable!()/assert sites can fire, extend_to never underflows), every marker
        a grammar function starts is completed or abandoned (no DropBomb), and so the grammar
-       phase returns normally with all tokens consumed and no live marker.
-   NOT yet proved (theorem B, parts 2 and 3): that event::process never reaches its
-   unreachable!() on the grammar's events, and the totality of the trivia builder / tree
-   builder / validation on the parser's output.  These are covered by the bounded-exhaustive
+       phase returns normally with all tokens consumed and no live marker;
+     - theorem B, part 2 (event::process): every forward-parent pointer the grammar writes
+       leads strictly forward to a Start event that is never popped (a marker obtained from
+       precede is always completed, never abandoned), hence event::process never reaches its
+       unreachable!() and its chain walk terminates.
+     Together: the parser (TopEntryPoint::parse up to the step list) returns normally on every
+     token sequence and on every text.
+   NOT proved (theorem B, part 3): the totality of the trivia builder / tree builder /
+   validation on the parser's steps.  These are covered by the bounded-exhaustive
    correspondence and the no-panic oracle on the implementation only. *)
 From Coq Require Import NArith Arith List Bool.
 From OQ3 Require Import gen.Kinds Model.Lexer Model.Lexed Model.Parser Model.Grammar
@@ -43,11 +48,12 @@ Theorem C01_grammar_consumes_all : forall inp,
   end.
 Proof. exact source_file_total. Qed.
 
-(* theorem B part 1 for every token sequence and every recursion fuel: no marker assertion
-   fires and no marker is left live *)
+(* theorem B parts 1 and 2 for every token sequence and every recursion fuel: no marker
+   assertion fires, no marker is left live, every forward-parent pointer leads strictly forward
+   to a Start event *)
 Theorem C01_marker_discipline_B : forall inp n,
   match source_file inp (tie inp n) init_state with
-  | Ok _ s => live s = []
+  | Ok _ s => live s = [] /\ EvOK s
   | Panic w => ~ mark w
   | OutOfFuel => True
   end.
@@ -57,18 +63,22 @@ Proof. exact source_file_markers. Qed.
 Theorem C01_grammar_phase_total : forall inp,
   (forall i k j, nth_error inp i = Some (k, j) -> k <> K_EOF) ->
   exists s, source_file inp (tie inp (fuel_for inp)) init_state = Ok tt s /\
-            pos s = ntoks inp /\ live s = [].
+            pos s = ntoks inp /\ live s = [] /\ EvOK s.
 Proof. exact grammar_phase_total. Qed.
 
-(* the only panic site of the parser model still reachable in principle is event::process *)
+(* event::process is total on well-formed events *)
+Theorem C01_process_total : forall s, EvOK s -> exists st, process (rev (evs s)) = Some st.
+Proof. exact process_total. Qed.
+
+(* the parser model returns its steps on every token sequence: no panic, no hang *)
 Theorem C01_parser_total_AB : forall inp,
   (forall i k j, nth_error inp i = Some (k, j) -> k <> K_EOF) ->
-  match run_parser inp with
-  | Steps _ => True
-  | Panicked w => w = SProcess
-  | Hang => False
-  end.
-Proof. exact run_parser_B. Qed.
+  exists st, run_parser inp = Steps st.
+Proof. exact run_parser_total_AB. Qed.
+
+(* ... and on every text *)
+Theorem C01_text_parser_total_AB : forall l, exists st, run_parser (to_input (lexed_of l)) = Steps st.
+Proof. intros l. apply run_parser_total_AB. apply to_input_ne_eof. Qed.
 
 (* theorem A for every text *)
 Theorem C01_text_total_A : forall l,
@@ -92,4 +102,6 @@ Print Assumptions C01_grammar_consumes_all.
 Print Assumptions C01_text_total_A.
 Print Assumptions C01_marker_discipline_B.
 Print Assumptions C01_grammar_phase_total.
+Print Assumptions C01_process_total.
 Print Assumptions C01_parser_total_AB.
+Print Assumptions C01_text_parser_total_AB.
